@@ -37,6 +37,12 @@ rsocket/reactivex/back_pressure_publisher.py rsocket/reactivex/reactivex_channel
 rsocket/rx_support/rx_rsocket.py rsocket/rx_support/rx_handler_adapter.py rsocket/rx_support/from_rsocket_publisher.py
 rsocket/rx_support/back_pressure_publisher.py rsocket/rx_support/rx_channel.py rsocket/rx_support/subscriber_adapter.py
 rsocket/load_balancer/round_robin.py rsocket/load_balancer/random_client.py rsocket/load_balancer/load_balancer_rsocket.py
+rsocket/streams/stream_handler.py rsocket/awaitable/awaitable_rsocket.py rsocket/awaitable/collector_subscriber.py
+rsocket/exceptions.py rsocket/rsocket_internal.py rsocket/reactivex/reactivex_handler.py rsocket/rx_support/rx_handler.py
+rsocket/transports/aiohttp_websocket.py rsocket/transports/aioquic_transport.py rsocket/transports/asyncwebsockets_transport.py
+rsocket/transports/channels_transport.py rsocket/transports/http3_transport.py rsocket/transports/quart_websocket.py
+rsocket/transports/websockets_transport.py reactivestreams/subscriber.py reactivestreams/subscription.py
+reactivestreams/publisher.py
 """.split()
 
 CMP = {ast.Lt: '<=', ast.LtE: '<', ast.Gt: '>=', ast.GtE: '>', ast.Eq: '!=', ast.NotEq: '==', ast.Is: 'is not',
